@@ -169,6 +169,7 @@ def shards(tier):
     out.append({'mode': 'illegal'})
     out.append({'mode': 'bounds'})
     out.append({'mode': 'literals'})
+    out.append({'mode': 'nesting'})
     return out
 
 
@@ -187,6 +188,23 @@ def glued(words):
             out += ' '
         out += w
     return out
+
+
+def nesting_verdict(construct, depth):
+    from . import c17
+    text = 'out = ' + c17.NEST[construct](depth)
+    old = sys.getrecursionlimit()
+    sys.setrecursionlimit(c17.DEFAULT_RECURSION_LIMIT)
+    try:
+        with time_limit(60):
+            k, v = impl.outcome(lambda: new_spec(text).parse())
+    except TimeoutError:
+        return 'parse() of a specification nested %d deep (%s) did not terminate within 60 s' % (depth, construct), 'timeout'
+    finally:
+        sys.setrecursionlimit(old)
+    if k == 'exc':
+        return 'parse() of a specification nested %d deep (%s) raised %s instead of RTAMTException' % (depth, construct, str(v)[:100]), 'other exception'
+    return None, ('accepted' if k == 'ok' else 'rejected')
 
 
 def run_shard(shard, tier, res):
@@ -244,6 +262,23 @@ def run_shard(shard, tier, res):
                     txt = c[:p] + ch + c[p:]
                     one(txt.replace(ch, ' ').split(), text=txt, skipped=True)
         res.sample({'text': 'out = x #>= 1', 'verdict': 'must be rejected'}, 1)
+    elif shard['mode'] == 'nesting':
+        # derivable by construction (no recogniser run on thousands of tokens); parse() runs under the DEFAULT recursion limit of the
+        # interpreter and must either succeed or raise RTAMTException
+        from . import c17
+        for construct in sorted(c17.NEST):
+            for depth in (50, 100, 200, 300, 400, 500, 1000, 2000):
+                text = 'out = ' + c17.NEST[construct](depth)
+                res.evaluations += 1
+                case = {'mode': 'nesting', 'construct': construct, 'depth': depth, 'words': [], 'text': None}
+                msg, cls = nesting_verdict(construct, depth)
+                res.outcomes['nested: ' + cls] += 1
+                if msg:
+                    res.violation(mod, case, msg)
+                else:
+                    res.nontrivial += 1
+                res.digest(construct, depth, cls)
+        res.sample({'text': 'out = ' + c17.NEST['parentheses'](3), 'depth': 3, 'verdict': 'derivable: must parse or be refused with RTAMTException'}, 1)
     elif shard['mode'] == 'literals':
         for lit in LITERALS:
             for words in (['out', '=', 'x', '>=', lit], ['out', '=', lit], ['out', '=', 'abs', '(', 'x', '-', lit, ')', '<=', lit],
@@ -269,6 +304,9 @@ def run_shard(shard, tier, res):
 
 
 def replay(case):
+    if case.get('mode') == 'nesting':
+        m, _ = nesting_verdict(case['construct'], case['depth'])
+        return [m] if m else []
     m, _ = judge_words(case['words'], case.get('text'), case.get('skipped', False))
     return [m] if m else []
 
